@@ -22,6 +22,7 @@ MANIFEST = dict(
     ref='3/C10')
 
 IMG_H, IMG_W = 640, 520
+_SHARED = {}
 STARTS = [(150, 320), (3, 8), (-15, 40)]
 SLOPES = [0.0, 0.25, -0.25, 0.5, -0.5, 1.0, -1.0, 1.5, -1.5]
 POINTCFG = [(2, 0), (3, 0), (3, 2), (4, 0), (4, -1), (5, 1)]        # (number of points, perpendicular offset of inner points)
@@ -178,6 +179,16 @@ def check_case(case, ctx):
     hts = np.asarray([h_up, h_down], dtype=np.float64)       # heights as the layout engine / ALTO import deliver them
     crop = eng.crop(img, np.asarray(pts), hts)
     ctx.executed()
+    # history: a long-lived cropper that has cropped many other lines before gives the same crop as a fresh one
+    if case['h'] == 0:
+        shared = _SHARED.setdefault((lh, poly, sc), EngineLineCropper(line_height=lh, poly=poly, scale=sc))
+        other = shared.crop(img, np.asarray(pts), np.asarray([h_up, h_down], dtype=np.float64))
+        ctx.executed()
+        if other.shape != crop.shape or not np.array_equal(other, crop):
+            ctx.violation('same-crop-on-every-call', f'{K}/long-lived-cropper-differs-from-a-fresh-one',
+                          f'{desc}: a cropper object that has cropped other lines before yields {other.shape}, a fresh one {crop.shape}'
+                          + ('' if other.shape != crop.shape else f' (max difference {float(np.abs(other.astype(float) - crop.astype(float)).max())})'))
+            return
     # history: cropping the same line again (same arguments) gives the same crop and leaves the arguments alone
     if case['h'] in (0, 3) and case['slope'] in (0, 3):
         again = eng.crop(img, np.asarray(pts), hts)
